@@ -8,6 +8,10 @@ mkdir -p "$ROOT/.build" "$ROOT/.work" "$ROOT/evidence"
 gcc -O2 -fPIC -shared -o "$ROOT/.build/iomon.so" "$ROOT/shim/iomon.c" -ldl -lpthread
 ( cd "$ROOT/harness" && cargo build --offline --target-dir "$ROOT/.build/harness" )
 ( cd /repo && CARGO_PROFILE_DEV_OPT_LEVEL=1 CARGO_PROFILE_DEV_DEBUG=0 cargo build --offline --features verif-hooks,zstd-compression,lzma-compression --target-dir "$ROOT/.build/cli" )
+# AddressSanitizer build of the CLI (used by the sanitizer slices; not fatal when it cannot be built).
+( cd /repo && CC=clang-14 CFLAGS="-fsanitize=address -fno-omit-frame-pointer" RUSTFLAGS="-Zsanitizer=address -Cforce-frame-pointers=yes" \
+    cargo +nightly build --offline --release --target x86_64-unknown-linux-gnu --features verif-hooks,zstd-compression,lzma-compression --target-dir "$ROOT/.build/asan" ) \
+  || echo "note: sanitizer build failed; sanitizer slices will be inconclusive"
 # Sanity: Blake2b-512 used by the oracles agrees with Python's hashlib.
 python3 - <<'PY'
 import hashlib
